@@ -69,6 +69,7 @@ struct Features {
     bitor: bool,
     cast_generic: bool,
     arrow_in_generics: bool,
+    gt_then_global_path: bool,
     depth: usize,
 }
 
@@ -84,6 +85,9 @@ impl Features {
         if self.arrow_in_generics {
             v.push("arrow_in_generics");
         }
+        if self.gt_then_global_path {
+            v.push("gt_then_global_path");
+        }
         v.join("+")
     }
 }
@@ -92,6 +96,17 @@ impl<'ast> syn::visit::Visit<'ast> for Features {
     fn visit_expr_binary(&mut self, e: &'ast syn::ExprBinary) {
         if matches!(e.op, syn::BinOp::BitOr(_) | syn::BinOp::BitOrAssign(_)) {
             self.bitor = true;
+        }
+        // `.. > ::path` / `.. >= ::path` / `.. >> ::path`: a `>` directly followed by the `::` of a global path; together
+        // with a `<` in an earlier argument it looks like `<..>::` to a scanner that pairs angle brackets
+        if matches!(e.op, syn::BinOp::Gt(_) | syn::BinOp::Ge(_) | syn::BinOp::Shr(_) | syn::BinOp::ShrAssign(_)) {
+            let mut it = e.right.to_token_stream().into_iter();
+            let (a, b) = (it.next(), it.next());
+            if matches!(a, Some(TokenTree::Punct(ref p)) if p.as_char() == ':')
+                && matches!(b, Some(TokenTree::Punct(ref p)) if p.as_char() == ':')
+            {
+                self.gt_then_global_path = true;
+            }
         }
         syn::visit::visit_expr_binary(self, e);
     }
